@@ -885,26 +885,26 @@ func CheckMain(prop, tier string) int {
 
 	// evidence
 	cov := map[string]interface{}{
-		"evaluations":         len(sr.reports) - len(harnessErrs),
-		"distinct_nontrivial": len(nontrivFps),
-		"rule":                props.Registry[prop].Rule(),
-		"samples":             samples,
-		"distinct_fingerprints": len(fps),
-		"runs_per_hour":       int(float64(len(sr.reports)) / sr.wall.Hours()),
-		"seeds":               map[string]interface{}{"base": baseSeed, "count": len(seeds), "executed": len(sr.reports), "first": seeds[0], "last": seeds[len(seeds)-1], "derivation": "splitmix64(VERIF_SEED, fnv64(property), i)>>1"},
-		"simulated_time_s":    simMs / 1000,
-		"blocks":              agg.Blocks,
+		"evaluations":            len(sr.reports) - len(harnessErrs),
+		"distinct_nontrivial":    len(nontrivFps),
+		"rule":                   props.Registry[prop].Rule(),
+		"samples":                samples,
+		"distinct_fingerprints":  len(fps),
+		"runs_per_hour":          int(float64(len(sr.reports)) / sr.wall.Hours()),
+		"seeds":                  map[string]interface{}{"base": baseSeed, "count": len(seeds), "executed": len(sr.reports), "first": seeds[0], "last": seeds[len(seeds)-1], "derivation": "splitmix64(VERIF_SEED, fnv64(property), i)>>1"},
+		"simulated_time_s":       simMs / 1000,
+		"blocks":                 agg.Blocks,
 		"txs_by_kind_and_result": agg.Txs,
-		"faults_fired":        agg.Faults,
-		"probes":              agg.Probes,
-		"components_real":     componentsReal,
-		"components_stub":     componentsStub,
-		"foreign_signals":     foreign,
+		"faults_fired":           agg.Faults,
+		"probes":                 agg.Probes,
+		"components_real":        componentsReal,
+		"components_stub":        componentsStub,
+		"foreign_signals":        foreign,
 		"known_findings_matched": knownMatched,
-		"harness_errors":      harnessErrs,
-		"worker_deaths":       len(sr.deaths),
-		"wall_capped":         sr.capped,
-		"workers":             workers,
+		"harness_errors":         harnessErrs,
+		"worker_deaths":          len(sr.deaths),
+		"wall_capped":            sr.capped,
+		"workers":                workers,
 	}
 	if prop == "C01" {
 		cov["cross_process_reexecutions"] = crossChecked
